@@ -108,6 +108,16 @@ def key_of(v):
     c = classify(v)
     return '%s:%s' % (v['fmt'], c) if not c.startswith('other:') else '%s:%s:%s' % (v['fmt'], v['kind'], c)
 
+def subst_names_partial(spec):
+    if isinstance(spec, tuple) and len(spec) == 3 and spec[0] == 'sym': return spec if spec[1] == 0 else {1: 'b', 2: 'k'}.get(spec[1], 'm')
+    if isinstance(spec, tuple): return tuple(subst_names_partial(x) for x in spec)
+    if isinstance(spec, list): return [subst_names_partial(x) for x in spec]
+    return spec
+
+def hash_pick(nm, k):
+    import zlib
+    return zlib.crc32(nm.encode()) % k == 0
+
 def shape_list(tier):
     quick = tier == 'quick'
     shapes = []
@@ -142,9 +152,10 @@ def main(tier, seed):
     for fmt in FORMATS:
         use = shapes
         if tier == 'quick' and fmt == 'han':
-            # Han identifiers split into many more classes (every keyword is made of identifier chars): quick keeps
-            # the constructors and a few sentences/tasks, thorough runs everything
-            use = [x for x in shapes if x[0].startswith(('atom/', 'set/SetExtension', 'vec/Product', 'image/ImageExtension@1', 'unary/', 'bin/Inheritance', 'bin/Similarity', 'bin/Implication', 'bin/EquivalencePredictive', 'bin/DifferenceExtension', 'sent-atom/atom/Word', 'task-atom/atom/Variable'))] + [x for x in shapes if x[0].startswith(('sent/', 'task/'))][::6]
+            # Han identifiers split into ~50 classes per char (every keyword is made of identifier chars): quick keeps
+            # every shape but makes only the FIRST name symbolic (the others are the concrete letters b, k); thorough
+            # makes all names symbolic
+            use = [(nm, subst_names_partial(sp)) for nm, sp in shapes if not nm.startswith(('sent/', 'task/')) or hash_pick(nm, 3)]
         plist = [dict(fmt=fmt, name=nm, spec=sp) for nm, sp in use]
         R.run_query(Query('roundtrip/' + fmt, 'c01', 'path', plist, '%d value shapes (constructors, nestings, sentences x stamps x truths, tasks x budgets), every well-formed name' % len(use)), confirm, key_of)
     return R.finish(rule='one state = one path through constructors+formatter+parser+eq for one shape; all well-formed names of the stated length are covered by the path conditions',
